@@ -63,7 +63,7 @@ func checkC13(c *Ctx) {
 	r := c.Rep
 	p := c.Prog
 	r.Explain = "Structural clauses of the TWCC decoder decided on (*TransportLayerCC).Unmarshal with the numeric engine (unconstrained input) and SSA def-use rules. Chunking invariance and the one-to-one correspondence of deltas and statuses are relations between run-time sequences and are NOT decided."
-	r.RuleText = "C13-DECL: every read of rawPacket that is dominated by the declared-length checks has its extent (index+1 / slice high bound / offset+N of a BigEndian read) entailed <= totalLength = 4*(Header.Length+1), not merely <= len(rawPacket). C13-NOWRAP: every addition that updates a loop-carried cursor or counter of fixed width in the decoder is proven not to wrap. C13-WIDTH: the slice given to RecvDelta.Unmarshal has constant width w, reached only under delta.Type == w (1 small, 2 large), and the delta cursor advances by the same w. C13-SCALE: RecvDelta.Unmarshal stores 250*zext(byte) resp. 250*sext16(BigEndian.Uint16). C13-CLIP: the run-length arm creates exactly N placeholders and advances the processed counter by the same N = localMin(count-processed, runLength), and localMin returns the smaller argument."
+	r.RuleText = "C13-DECL: every read of rawPacket that is dominated by the declared-length checks has its extent (index+1 / slice high bound / offset+N of a BigEndian read) entailed <= totalLength = 4*(Header.Length+1), not merely <= len(rawPacket). C13-NOWRAP: every addition that updates a loop-carried cursor or counter of fixed width in the decoder is proven not to wrap. C13-WIDTH: the slice given to RecvDelta.Unmarshal has constant width w, reached only under delta.Type == w (1 small, 2 large), and the delta cursor advances by the same w. C13-SCALE: RecvDelta.Unmarshal stores 250*zext(byte) resp. 250*sext16(BigEndian.Uint16). C13-CLIP: the run-length arm creates exactly N placeholders and advances the processed counter by the same N = localMin(count-processed, runLength), and localMin returns the smaller argument. C13-SYM: every RecvDelta placeholder created while expanding the status chunks gets a Type entailed within {1 small delta, 2 large delta} (a symbol that carries no delta never yields one)."
 	r.Trusted = []string{"go/ssa", "numeric engine checker/num", "field names Header.Length, PacketStatusCount, Type, Delta (anchors)"}
 	r.NotCov("chunking invariance; one-to-one, in-order correspondence of deltas with received statuses; equality of decoded values (run-time relations)")
 	r.NotCov("chunk bit extraction (C13-BITS) is decided under C16")
@@ -91,6 +91,7 @@ func checkC13(c *Ctx) {
 
 	// ---- run the engine with hooks
 	e := newNumEngine(c, nil)
+	e.LoadGVN = true
 	type declRes struct {
 		seen, failed int
 		pos         token.Pos
@@ -127,10 +128,42 @@ func checkC13(c *Ctx) {
 			}
 		}
 	}
+	// C13-SYM: a receive-delta placeholder is created only for a status symbol that carries a delta
+	// (small = 1, large = 2), and its Type is that symbol
+	rdNamed := p.Named("RecvDelta")
+	symSeen, symBad := 0, 0
+	symDet := ""
+	var symPos token.Pos
+	if rdNamed != nil {
+		tIdx := structFieldIndex(rdNamed, "Type")
+		e.StoreHook = func(e *num.Engine, st *num.State, x *ssa.Store) {
+			fa, ok := x.Addr.(*ssa.FieldAddr)
+			if !ok || fa.Field != tIdx || x.Parent() != fn {
+				return
+			}
+			al, ok := fa.X.(*ssa.Alloc)
+			if !ok || !al.Heap {
+				return
+			}
+			if nt, ok := al.Type().Underlying().(*types.Pointer).Elem().(*types.Named); !ok || nt.Obj().Name() != "RecvDelta" {
+				return
+			}
+			symSeen++
+			symPos = x.Pos()
+			v := e.ExprOf(st, x.Val)
+			if v.Bad || !st.Entails(v.AddConst(-1)) || !st.Entails(v.Neg().AddConst(2)) {
+				symBad++
+				symDet = fmt.Sprintf("a RecvDelta placeholder is created with Type %s, only known to lie in %s (a delta exists only for symbols 1 and 2)", e.LinString(st.Subst(v)), rangeStr(st.Bounds(v)))
+			}
+		}
+	}
 	e.AnalyzeRoot(fn, num.RootOptions{ZeroReceiver: true})
 	if e.Exceeded {
 		r.Fatalf("numeric engine budget exceeded")
 	}
+	r.Check(symSeen >= 3 && symBad == 0, "C13-SYM", "(*TransportLayerCC).Unmarshal/placeholder-only-for-delta-symbols", p.Pos(symPos),
+		fmt.Sprintf("every RecvDelta placeholder gets a Type entailed within {1 small, 2 large} (%d evaluation(s) of the 3+ creation sites)", symSeen),
+		fmt.Sprintf("%d creation site evaluation(s); %s", symSeen, symDet))
 	r.Floor("C13-DECL", 10)
 	for _, k := range declOrder {
 		d := decl[k]
